@@ -368,6 +368,30 @@ def run_cli(case):
         style = int(rng.integers(0, 3))
         cwd = cwds[t % 3]
         cli = None if rng.random() < 0.6 else int(rng.choice([65536, 393216, 1 << 21]))
+        if t % 4 == 3:
+            # a named system configuration / memory mode without any --config file cannot be resolved: it must be rejected, never replaced by the internal defaults
+            known_sys = "Ethos_U55_High_End_Embedded" if fam == "u55" else "Ethos_U65_High_End"
+            names = [("--system-config", str(rng.choice([known_sys, "No_Such_System_Config"]))), ("--memory-mode", str(rng.choice(["Shared_Sram", "Sram_Only", "No_Such_Memory_Mode"])))]
+            pick = int(rng.integers(1, 4))
+            sel = [n for i, n in enumerate(names) if pick & (1 << i)]
+            odir = os.path.join(d, "o%d" % t)
+            argv = [sys.executable, launcher, mp, "--output-dir", odir, "--accelerator-config", acc, "--verbose-config"] + [x for n in sel for x in n]
+            if cli is not None:
+                argv += ["--arena-cache-size", str(cli)]
+            p = subprocess.run(argv, cwd=cwd, env=repo.child_env(), capture_output=True, text=True, timeout=300)
+            counters["cli_runs"] += 1
+            counters["cli_named_without_config_file"] = counters.get("cli_named_without_config_file", 0) + 1
+            keys.append("cli-noconfig|%d|%s" % (pick, acc))
+            wit = {"argv": argv[2:], "cwd": cwd, "stdout_tail": p.stdout[-800:], "stderr_tail": p.stderr[-800:]}
+            which = "+".join(n[0].lstrip("-") for n in sel)
+            if p.returncode == 0 or os.path.exists(odir) and os.listdir(odir):
+                mech = "cli:named-configuration-without-config-file-accepted:" + which
+                viol.setdefault(mech, {"mech": mech, "msg": "%s given without --config: exit status %d, output written: %s (expected an error; nothing can resolve the name)" % (
+                    " ".join(x for n in sel for x in n), p.returncode, os.path.exists(odir) and bool(os.listdir(odir))), "witness": wit})
+            elif "Traceback" in p.stderr:
+                mech = "cli:invalid-configuration-traceback"
+                viol.setdefault(mech, {"mech": mech, "msg": "expected a Vela error for %s without --config, got a traceback" % which, "witness": wit})
+            continue
         if style < 2:
             # bundled file, documented relative form or absolute path
             cfgarg = "Arm/vela.ini" if style == 0 else os.path.join(repo.REPO, "ethosu", "config_files", "Arm", "vela.ini")
@@ -472,7 +496,7 @@ def summarise(agg, tier):
     q = tier == "quick"
     return {
         "thresholds": {"configurations": 500 if q else 15000, "with_inheritance": 150 if q else 5000, "rejections_observed": 50 if q else 1500,
-                       "accepted_compared": 150 if q else 4000, "cli_runs": 50 if q else 500, "cli_bundled_relative": 10 if q else 100},
+                       "accepted_compared": 150 if q else 4000, "cli_runs": 50 if q else 500, "cli_bundled_relative": 6 if q else 60, "cli_named_without_config_file": 8 if q else 80},
         "rule": "generated .ini files (1-3 sections per part, inheritance chains of depth 0-4, random option subsets, all port mappings, shuffled section order, "
                 "optionally split over two files) x selection x CLI override present/absent x 6 accelerators; 35% hostile (self-inherit, 2-cycle, missing parent, "
                 "out-of-range size, illegal mapping, unknown section); CLI runs from 3 working directories with Dir/file.ini, absolute and generated files. "
